@@ -582,10 +582,8 @@ Proof.
       unfold drops_at. simpl. rewrite !Nat.eqb_refl. reflexivity. }
     unfold drop_port in EQ. rewrite port_gets_drop_spec in EQ. unfold expected_drop in *.
     destruct (port_needs p) eqn:PN; inversion EQ; subst; simpl; repeat split; auto.
-    Show.
-    + unfold port_needs in PN. destruct (p_kind p); [|rewrite andb_false_r in PN; discriminate].
-      simpl. lia.
-    + lia.
+    unfold port_needs in PN. destruct (p_kind p); [|rewrite andb_false_r in PN; discriminate].
+    simpl. lia.
   - specialize (IH ni (S pi) j p H). rewrite E in IH. simpl in IH.
     destruct IH as [p' [N [K [DA LK]]]]. exists p'. simpl.
     replace (pi + S j) with (S pi + j) by lia. repeat split; auto.
@@ -622,9 +620,8 @@ Proof.
   - inversion Hn; subst m. rewrite Nat.add_0_r. unfold gen_insert_drops_skip_node.
     destruct (n_funcdefn n) eqn:FD.
     + destruct (drop_nodes (S ni) r) as [r' ds] eqn:E. simpl in *.
-      exists n, p. rewrite FD. repeat split; auto.
-      * apply drops_at_none. intros d Hd. specialize (RG d Hd). left. lia.
-      * simpl. lia.
+      exists n, p. rewrite FD. repeat split; auto; try (simpl; lia).
+      apply drops_at_none. intros d Hd. specialize (RG d Hd). left. lia.
     + destruct (drop_ports_nth (n_out n) ni 0 j p Hp) as [p' [N [K [DA LK]]]].
       destruct (drop_ports ni 0 (n_out n)) as [ps dd]. destruct (drop_nodes (S ni) r) as [r' ds] eqn:E. simpl in *.
       exists (mkNode false ps), p'. simpl. repeat split; auto.
